@@ -19,7 +19,7 @@ func checkStagedReadEOF(p *Program, r *Result, rule string, lc *ssa.Function, su
 	}
 	hashed := checksumData(sumCall)
 	n := 0
-	for _, ci := range callsIn(lc, func(ci ssa.CallInstruction) bool { return calleeIs(ci, "io.ReadFull") }) {
+	for _, ci := range callsIn(lc, isExactFullRead) {
 		call, ok := ci.(*ssa.Call)
 		if !ok || !(sameSliceShape(call.Call.Args[1], hashed) || call.Call.Args[1] == hashed) {
 			continue
